@@ -1,8 +1,8 @@
 (* Properties_C18.v — C18: check-ups classify by their thresholds; statuses aggregate as a severity order.
    Only statements, each closed by [exact <lemma>] and followed by Print Assumptions. *)
 From Coq Require Import Reals ZArith List Bool Lra.
-From Romea Require Import Num NumR DiagModel DiagProofs.
-From Romea.gen Require Import RepoConstants.
+From Romea Require Import Num NumR DiagModel DiagProofs SrcTieC18 GridMapFloat DiagFloat.
+From Romea.gen Require Import RepoConstants SrcDiag.
 Import ListNotations.
 Local Open Scope R_scope.
 
@@ -126,3 +126,157 @@ Example C18_ex_append :
   rep_info (report_append {| rep_diags := []; rep_info := [(1, 10); (3, 30)]%Z |}
                           {| rep_diags := []; rep_info := [(2, 21); (3, 31)]%Z |}) = [(1, 10); (2, 21); (3, 30)]%Z.
 Proof. vm_compute. reflexivity. Qed.
+
+(* ====================================================================================================================
+   SYNTACTIC SOURCE TIE.  gen/SrcDiag.v is regenerated on every run by translate/tr_C18_diag.py from the clang AST of the
+   current Checkup*.hpp / CheckupReliability.cpp / DiagnosticStatus.cpp / Diagnostic.cpp / DiagnosticReport.cpp; the
+   functions the theorems above are about ARE those generated terms, for every numeric dictionary (SrcTieC18.v).
+   A generated transformer takes the parameters, then the fields it reads (by name), and returns the fields it writes and
+   the returned value; [pack c r] puts a new report r back into the check-up c (thresholds are never written).
+   ==================================================================================================================== *)
+Theorem C18_source_tie_equal_to : forall T (N : NumOps T) (c : checkup) v,
+  (let '(r, s) := src_equal_to_evaluate N v (c_eps c) (c_report c) (c_cmp c) in (pack c r, s)) = eval_equal_to N c v.
+Proof. exact @tie_equal_to. Qed.
+Print Assumptions C18_source_tie_equal_to.
+
+Theorem C18_source_tie_greater_than : forall T (N : NumOps T) (c : checkup) v,
+  (let '(r, s) := src_greater_than_evaluate N v (c_eps c) (c_report c) (c_cmp c) in (pack c r, s)) = eval_greater_than N c v.
+Proof. exact @tie_greater_than. Qed.
+
+Theorem C18_source_tie_lower_than : forall T (N : NumOps T) (c : checkup) v,
+  (let '(r, s) := src_lower_than_evaluate N v (c_eps c) (c_report c) (c_cmp c) in (pack c r, s)) = eval_lower_than N c v.
+Proof. exact @tie_lower_than. Qed.
+
+(* CheckupReliability: high threshold = c_eps, low threshold = c_cmp *)
+Theorem C18_source_tie_reliability : forall T (N : NumOps T) (c : checkup) v,
+  (let '(r, s) := src_reliability_evaluate N v (c_eps c) (c_cmp c) (c_report c) in (pack c r, s)) = eval_reliability N c v.
+Proof. exact @tie_reliability. Qed.
+Print Assumptions C18_source_tie_reliability.
+
+(* the helpers of Checkup<T> the evaluate functions are built on, and Checkup<T>::timeout *)
+Theorem C18_source_tie_checkup_helpers : forall T s m v (r : creport (T:=T)),
+  src_checkup_setDiagnostic s m r = {| r_diag := {| d_status := s; d_suffix := m |}; r_info := r_info r |} /\
+  src_checkup_setValue v r = {| r_diag := r_diag r; r_info := Some v |} /\
+  src_checkup_getStatus r = d_status (r_diag r).
+Proof. intros. repeat split. Qed.
+
+Theorem C18_source_tie_timeout : forall T (c : checkup (T:=T)), pack c (src_checkup_timeout (c_report c)) = checkup_timeout c.
+Proof. exact @tie_checkup_timeout. Qed.
+
+Theorem C18_source_tie_worse : forall a b, src_worse a b = worse a b.
+Proof. exact tie_worse. Qed.
+
+(* the iterator loop of worseStatus; None = the C++ dereferences the end iterator (empty list) *)
+Theorem C18_source_tie_worseStatus : forall l, src_worseStatus l = worseStatus l.
+Proof. exact tie_worseStatus. Qed.
+Print Assumptions C18_source_tie_worseStatus.
+
+Theorem C18_source_tie_allOK : forall l, src_allOK l = allOK l.
+Proof. exact tie_allOK. Qed.
+
+Theorem C18_source_tie_report_append : forall r1 r2,
+  src_report_append (rep_diags r1) (rep_info r1) (rep_diags r2) (rep_info r2)
+  = (rep_diags (report_append r1 r2), rep_info (report_append r1 r2)).
+Proof. exact tie_report_append. Qed.
+Print Assumptions C18_source_tie_report_append.
+
+(* ====================================================================================================================
+   BINARY64.  The same model at the rounded dictionary B64Ops (GridMapFloat.v: every C++ double operation is the real
+   operation followed by one rounding to nearest-even in FLT(-1074, 53); comparisons are exact).  By the source tie above
+   (which holds for every dictionary) eval_* B64Ops is also the generated term at B64Ops.  The only rounding is in
+   cmp - eps / cmp + eps; v is the double handed to evaluate (b64 v).  The format has no largest exponent: the statements
+   are about the code as long as |cmp| + |eps| does not overflow.
+   ==================================================================================================================== *)
+(* the verdict is that of the ROUNDED threshold *)
+Theorem C18_thresholds_binary64_rounded_threshold : forall (c : checkup (T:=R)) v,
+  (snd (eval_greater_than B64Ops c v) = OK <-> rnd64 (c_cmp c - c_eps c) < v) /\
+  (snd (eval_lower_than B64Ops c v) = OK <-> v < rnd64 (c_cmp c + c_eps c)) /\
+  (snd (eval_equal_to B64Ops c v) = OK <-> rnd64 (c_cmp c - c_eps c) <= v <= rnd64 (c_cmp c + c_eps c)).
+Proof. intros c v. exact (conj (greater_b64_char c v) (conj (lower_b64_char c v) (equal_b64_char c v))). Qed.
+Print Assumptions C18_thresholds_binary64_rounded_threshold.
+
+(* exact disagreement sets: the double evaluation (new state, report and returned status) equals the real-number one of
+   the property EXCEPT when the value is exactly the rounded threshold and the rounding moved the threshold across it *)
+Theorem C18_thresholds_binary64_greater_vs_real : forall (c : checkup (T:=R)) v, b64 v ->
+  (eval_greater_than B64Ops c v = eval_greater_than ROps c v <->
+   ~ (v = rnd64 (c_cmp c - c_eps c) /\ c_cmp c - c_eps c < v)).
+Proof. exact greater_b64_vs_real. Qed.
+Print Assumptions C18_thresholds_binary64_greater_vs_real.
+
+Theorem C18_thresholds_binary64_lower_vs_real : forall (c : checkup (T:=R)) v, b64 v ->
+  (eval_lower_than B64Ops c v = eval_lower_than ROps c v <->
+   ~ (v = rnd64 (c_cmp c + c_eps c) /\ v < c_cmp c + c_eps c)).
+Proof. exact lower_b64_vs_real. Qed.
+
+Theorem C18_thresholds_binary64_equal_vs_real : forall (c : checkup (T:=R)) v, b64 v ->
+  c_cmp c - c_eps c <= c_cmp c + c_eps c ->
+  (eval_equal_to B64Ops c v = eval_equal_to ROps c v <->
+   ~ (v = rnd64 (c_cmp c - c_eps c) /\ v < c_cmp c - c_eps c) /\
+   ~ (v = rnd64 (c_cmp c + c_eps c) /\ c_cmp c + c_eps c < v)).
+Proof. exact equal_b64_vs_real. Qed.
+Print Assumptions C18_thresholds_binary64_equal_vs_real.
+
+(* what happens inside the band: greater-than / lower-than report ERROR where the property says OK; equal-to reports OK
+   where the property says ERROR (the rounded band is the wider one) *)
+Theorem C18_thresholds_binary64_inside_band : forall (c : checkup (T:=R)) v,
+  (b64 v -> eval_greater_than B64Ops c v <> eval_greater_than ROps c v ->
+     eval_greater_than ROps c v = (set_diag c OK SIsOK (Some v), OK) /\
+     eval_greater_than B64Ops c v = (set_diag c ERROR STooLow (Some v), ERROR)) /\
+  (b64 v -> eval_lower_than B64Ops c v <> eval_lower_than ROps c v ->
+     eval_lower_than ROps c v = (set_diag c OK SIsOK (Some v), OK) /\
+     eval_lower_than B64Ops c v = (set_diag c ERROR STooHigh (Some v), ERROR)) /\
+  (c_cmp c - c_eps c <= c_cmp c + c_eps c -> v = rnd64 (c_cmp c - c_eps c) -> v < c_cmp c - c_eps c ->
+     eval_equal_to B64Ops c v = (set_diag c OK SIsOK (Some v), OK) /\
+     eval_equal_to ROps c v = (set_diag c ERROR STooLow (Some v), ERROR)) /\
+  (c_cmp c - c_eps c <= c_cmp c + c_eps c -> v = rnd64 (c_cmp c + c_eps c) -> c_cmp c + c_eps c < v ->
+     eval_equal_to B64Ops c v = (set_diag c OK SIsOK (Some v), OK) /\
+     eval_equal_to ROps c v = (set_diag c ERROR STooHigh (Some v), ERROR)).
+Proof.
+  intros c v. exact (conj (greater_b64_disagree c v) (conj (lower_b64_disagree c v)
+                     (conj (equal_b64_low_point c v) (equal_b64_high_point c v)))).
+Qed.
+Print Assumptions C18_thresholds_binary64_inside_band.
+
+(* hence: a value farther than half an ulp of the real threshold from it gets the verdict of the property *)
+Theorem C18_thresholds_binary64_outside_band : forall (c : checkup (T:=R)) v, b64 v ->
+  let hulp t := / 2 * Ulp.ulp Zaux.radix2 (FLT.FLT_exp (-1074) 53) t in
+  (hulp (c_cmp c - c_eps c) < Rabs (v - (c_cmp c - c_eps c)) -> eval_greater_than B64Ops c v = eval_greater_than ROps c v) /\
+  (hulp (c_cmp c + c_eps c) < Rabs (v - (c_cmp c + c_eps c)) -> eval_lower_than B64Ops c v = eval_lower_than ROps c v) /\
+  (hulp (c_cmp c - c_eps c) < Rabs (v - (c_cmp c - c_eps c)) -> hulp (c_cmp c + c_eps c) < Rabs (v - (c_cmp c + c_eps c)) ->
+     eval_equal_to B64Ops c v = eval_equal_to ROps c v).
+Proof.
+  intros c v Fv. cbv zeta.
+  exact (conj (greater_b64_outside_band c v Fv) (conj (lower_b64_outside_band c v Fv) (equal_b64_outside_band c v Fv))).
+Qed.
+Print Assumptions C18_thresholds_binary64_outside_band.
+
+(* thresholds that are doubles (dyadic target / epsilon as the correspondence run generates, or epsilon = 0): the two
+   evaluations coincide for EVERY real value *)
+Theorem C18_thresholds_binary64_exact_threshold : forall (c : checkup (T:=R)) v,
+  (b64 (c_cmp c - c_eps c) -> eval_greater_than B64Ops c v = eval_greater_than ROps c v) /\
+  (b64 (c_cmp c + c_eps c) -> eval_lower_than B64Ops c v = eval_lower_than ROps c v) /\
+  (b64 (c_cmp c - c_eps c) -> b64 (c_cmp c + c_eps c) -> eval_equal_to B64Ops c v = eval_equal_to ROps c v).
+Proof.
+  intros c v. exact (conj (greater_b64_exact_threshold c v) (conj (lower_b64_exact_threshold c v) (equal_b64_exact_threshold c v))).
+Qed.
+
+Theorem C18_thresholds_binary64_epsilon_zero : forall (c : checkup (T:=R)) v, b64 (c_cmp c) -> c_eps c = 0 ->
+  eval_greater_than B64Ops c v = eval_greater_than ROps c v /\
+  eval_lower_than B64Ops c v = eval_lower_than ROps c v /\
+  eval_equal_to B64Ops c v = eval_equal_to ROps c v.
+Proof.
+  intros c v F E. exact (conj (greater_b64_eps0 c v F E) (conj (lower_b64_eps0 c v F E) (equal_b64_eps0 c v F E))).
+Qed.
+Print Assumptions C18_thresholds_binary64_epsilon_zero.
+
+(* the reliability check-up only compares: no rounding at all *)
+Theorem C18_thresholds_binary64_reliability : forall (c : checkup (T:=R)) v,
+  eval_reliability B64Ops c v = eval_reliability ROps c v.
+Proof. exact reliability_b64_eq. Qed.
+
+(* non-vacuity: the band is real.  cmp = 1, eps = 2^-54, v = 1: 1 - 2^-54 is the midpoint of two doubles and rounds (to
+   even) to 1, so the greater-than check-up says ERROR in binary64 where the property (1 > 1 - 2^-54) says OK *)
+Example C18_ex_binary64_band :
+  let c := chk 1 (Raux.bpow Zaux.radix2 (-54)) in
+  snd (eval_greater_than ROps c 1) = OK /\ snd (eval_greater_than B64Ops c 1) = ERROR.
+Proof. exact greater_b64_tie_witness. Qed.
